@@ -385,6 +385,24 @@ fn leak_grid_cells() -> Vec<(String, Vec<String>, &'static str)> {
             }
         }
     }
+    // the NAME of a declaration used as a plain variable in another declaration
+    for (kind, owner_text) in [
+        ("FUNCTION name", "FUNCTION lk_leak : INT\nVAR_INPUT\nlk_a : INT;\nEND_VAR\nlk_leak := lk_a;\nEND_FUNCTION\n"),
+        ("FUNCTION_BLOCK name", "FUNCTION_BLOCK lk_leak\nVAR\nlk_a : INT;\nEND_VAR\nlk_a := 1;\nEND_FUNCTION_BLOCK\n"),
+        ("PROGRAM name", "PROGRAM lk_leak\nVAR\nlk_a : INT;\nEND_VAR\nlk_a := 1;\nEND_PROGRAM\n"),
+        ("TYPE name", "TYPE\nlk_leak : (lk_v1, lk_v2);\nEND_TYPE\n"),
+        ("enumeration value", "TYPE\nlk_en : (lk_leak, lk_v2);\nEND_TYPE\n"),
+    ] {
+        for user in ["FUNCTION", "FUNCTION_BLOCK", "PROGRAM"] {
+            let stmt = "lk_y := lk_leak;\n";
+            let user_text = match user {
+                "FUNCTION" => format!("FUNCTION lk_user : INT\nVAR\nlk_y : INT;\nEND_VAR\n{}lk_user := 2;\nEND_FUNCTION\n", stmt),
+                "FUNCTION_BLOCK" => format!("FUNCTION_BLOCK lk_user\nVAR\nlk_y : INT;\nEND_VAR\n{}END_FUNCTION_BLOCK\n", stmt),
+                _ => format!("PROGRAM lk_user\nVAR\nlk_y : INT;\nEND_VAR\n{}END_PROGRAM\n", stmt),
+            };
+            out.push((format!("{} used as a variable in {}", kind, user), vec![owner_text.to_string(), user_text], "P0015"));
+        }
+    }
     out
 }
 
